@@ -5,6 +5,7 @@
 //   drv_c08 steps   <seed> <n>      step-level rans_write records at production precision (state observed through a copy + write_end)
 //   drv_c08 create  <seed> <n>      RAnsSymbolEncoder<b>::Create: frequency table -> serialised probability table
 //   drv_c08 wide                    values needing 32 bits / spanning >= 2^31 (F6 family), forked
+#include <sys/time.h>
 #include <sys/wait.h>
 #include <unistd.h>
 #include <algorithm>
@@ -121,7 +122,7 @@ static void forked(const SymCase &c, const char *label) {
   fflush(stdout);
   pid_t pid = fork();
   if (pid == 0) {
-    alarm(60);
+    { struct itimerval it; memset(&it, 0, sizeof it); it.it_value.tv_sec = 60; setitimer(ITIMER_PROF, &it, nullptr); alarm(900); }   // 60 s of CPU time (load does not count), 900 s of wall time as a backstop
     emit_sym(c);
     fflush(stdout);
     _exit(0);
